@@ -1,6 +1,9 @@
 use crate::make_constraints_map_from_assignment;
 use crate::math::{Comparison, OptimizationType, VariableType};
-use crate::solvers::{Assignment, LpSolution, SimplexError, SolverError, find_invalid_variables};
+use crate::solvers::{
+    Assignment, CanonicalTransformError, LpSolution, SimplexError, SolverError,
+    find_invalid_variables,
+};
 use crate::transformers::LinearModel;
 use microlp::{OptimizationDirection, Problem};
 
@@ -39,9 +42,11 @@ pub fn solve_real_lp_problem_slow_simplex(
     limit: i64,
 ) -> Result<LpSolution<f64>, SolverError> {
     let standard = lp.clone().into_standard_form()?;
-    let mut canonical_form = standard
-        .into_tableau()
-        .map_err(|e| SolverError::Other(e.to_string()))?;
+    let mut canonical_form = standard.into_tableau().map_err(|e| match e {
+        // an infeasible phase 1 is a verdict, not an internal error: use the dedicated kind
+        CanonicalTransformError::Infesible(_) => SolverError::Infeasible,
+        e => SolverError::Other(e.to_string()),
+    })?;
 
     let solution = canonical_form.solve(limit);
     match solution {
